@@ -127,7 +127,7 @@ func (d *dagGen) addNode(op string, attrs []Attr, ins []string, outs []poolT) {
 
 func (d *dagGen) step() {
 	rng := d.e.rng
-	switch rng.Intn(14) {
+	switch rng.Intn(20) {
 	case 0, 1: // binary with an equal-shaped or broadcastable partner
 		a := d.pick()
 		op := []string{"Add", "Sub", "Mul", "Add"}[rng.Intn(4)]
@@ -259,6 +259,74 @@ func (d *dagGen) step() {
 				ins = append(ins, d.addInit([]int{m}, d.nName+1))
 			}
 			d.addNode("Conv", nil, ins, []poolT{{d.fresh(""), []int{a.shape[0], m, a.shape[2] - 1, a.shape[3] - 1}}})
+		}
+	case 14: // Gemm with transA: against a weight, or the Gram matrix of one tensor (one name at two positions)
+		if a, ok := d.pickRank(2); ok {
+			if rng.Intn(2) == 0 {
+				tB := int64(rng.Intn(2))
+				os := []int{a.shape[1], a.shape[1]}
+				if tB == 1 {
+					if a.shape[0] != a.shape[1] {
+						return
+					}
+				}
+				d.addNode("Gemm", []Attr{{Name: "transA", Type: "i", I: 1}, {Name: "transB", Type: "i", I: tB}}, []string{a.name, a.name}, []poolT{{d.fresh(""), os}})
+			} else {
+				n := 2 + rng.Intn(2)
+				w := d.addInit([]int{a.shape[0], n}, d.nName)
+				d.addNode("Gemm", []Attr{{Name: "transA", Type: "i", I: 1}, {Name: "beta", Type: "f", F: 2}}, []string{a.name, w, d.addInit([]int{a.shape[1], 1}, d.nName)}, []poolT{{d.fresh(""), []int{a.shape[1], n}}})
+			}
+		}
+	case 15: // MatMul of a tensor with itself (square) or a batched left operand with a matrix weight
+		if a, ok := d.pickRank(2); ok && a.shape[0] == a.shape[1] {
+			d.addNode("MatMul", nil, []string{a.name, a.name}, []poolT{{d.fresh(""), a.shape}})
+		} else if a, ok := d.pickRank(3); ok {
+			w := d.addInit([]int{a.shape[2], 2}, d.nName)
+			d.addNode("MatMul", nil, []string{a.name, w}, []poolT{{d.fresh(""), []int{a.shape[0], a.shape[1], 2}}})
+		}
+	case 16: // Slice along the last axis
+		a := d.pick()
+		if r := len(a.shape); r >= 1 && a.shape[r-1] >= 2 {
+			st, en, ax := d.fresh("st"), d.fresh("en"), d.fresh("axs")
+			d.g.Inits = append(d.g.Inits, InitJ{Name: st, T: idxT("i64", []int{1}, []int{1})}, InitJ{Name: en, T: idxT("i64", []int{1}, []int{a.shape[r-1]})}, InitJ{Name: ax, T: idxT("i64", []int{1}, []int{r - 1})})
+			ns := append(append([]int{}, a.shape[:r-1]...), a.shape[r-1]-1)
+			if ns[r-1] == 1 && r > 1 {
+				return // extent-1 results of Slice are a recorded finding of C08
+			}
+			d.addNode("Slice", nil, []string{a.name, st, en, ax}, []poolT{{d.fresh(""), ns}})
+		}
+	case 17: // Gather rows by an index weight
+		a := d.pick()
+		if len(a.shape) >= 1 && a.shape[0] >= 2 {
+			ix := d.fresh("ix")
+			d.g.Inits = append(d.g.Inits, InitJ{Name: ix, T: idxT("i64", []int{3}, []int{a.shape[0] - 1, 0, -1})})
+			d.addNode("Gather", []Attr{{Name: "axis", Type: "i", I: 0}}, []string{a.name, ix}, []poolT{{d.fresh(""), append([]int{3}, a.shape[1:]...)}})
+		}
+	case 18: // ArgMax then Cast back to float32
+		a := d.pick()
+		if len(a.shape) >= 2 {
+			am := d.fresh("am")
+			ns := append([]int{}, a.shape...)
+			ns[len(ns)-1] = 1
+			d.addNode("ArgMax", []Attr{{Name: "axis", Type: "i", I: -1}, {Name: "keepdims", Type: "i", I: 1}}, []string{a.name}, []poolT{{am, nil}})
+			d.addNode("Cast", []Attr{{Name: "to", Type: "i", I: 1}}, []string{am}, []poolT{{d.fresh(""), ns}})
+		}
+	case 19: // comparison (bool result); ReduceMin over the first axis; Squeeze after Unsqueeze-like shapes
+		a := d.pick()
+		switch rng.Intn(3) {
+		case 0:
+			// the bool result only leaves the graph (Cast refuses a bool source)
+			d.addNode([]string{"Less", "Greater", "Equal", "LessOrEqual", "GreaterOrEqual"}[rng.Intn(5)], nil, []string{a.name, d.addInit(a.shape, d.nName)}, []poolT{{d.fresh("cmp"), nil}})
+		case 1:
+			if len(a.shape) >= 2 && len(a.shape) <= 3 {
+				d.addNode("ReduceMin", []Attr{{Name: "axes", Type: "ints", Ints: []int64{0}}, {Name: "keepdims", Type: "i", I: 1}}, []string{a.name}, []poolT{{d.fresh(""), append([]int{1}, a.shape[1:]...)}})
+			}
+		default:
+			if len(a.shape) >= 2 && a.shape[0] == 1 {
+				ax := d.fresh("ax")
+				d.g.Inits = append(d.g.Inits, InitJ{Name: ax, T: idxT("i64", []int{1}, []int{0})})
+				d.addNode("Squeeze", nil, []string{a.name, ax}, []poolT{{d.fresh(""), a.shape[1:]}})
+			}
 		}
 	}
 }
